@@ -151,8 +151,9 @@ fn check(shape: &Shape, obs: &mut Obs) {
                 obs.fail("points-inside-bounding-box", format!("bb={:?}", bb));
             }
             if got != exp {
-                let only_p: Vec<_> = got.iter().filter(|q| !exp.contains(q)).take(6).collect();
-                let only_c: Vec<_> = exp.iter().filter(|q| !got.contains(q)).take(6).collect();
+                let (gs, es): (std::collections::HashSet<_>, std::collections::HashSet<_>) = (got.iter().collect(), exp.iter().collect());
+                let only_p: Vec<_> = got.iter().filter(|q| !es.contains(q)).take(6).collect();
+                let only_c: Vec<_> = exp.iter().filter(|q| !gs.contains(q)).take(6).collect();
                 let mut sorted = got.clone();
                 sorted.sort_by_key(|&(x, y)| (y, x));
                 let clause = if only_p.is_empty() && only_c.is_empty() {
